@@ -184,6 +184,23 @@ theorem not_lockBlocked {s : State} {tx t : Nat} {rows : List Nat} (h : lockBloc
       simp only [Bool.false_eq_true, ↓reduceIte]
       simpa using this
 
+/-! ## batch_insert either returns its input or replaces one table -/
+
+theorem batchInsert_form (s : State) (t : Nat) (rows : List (List Val)) :
+    (batchInsert s t rows).1 = s ∨
+    ∃ T, s.tables t = some T ∧ rows.any (rowBad T) = false ∧
+      (batchInsert s t rows).1 = setTable s t (rows.foldl insertRow T) := by
+  unfold batchInsert
+  split
+  · exact Or.inl rfl
+  · split
+    · exact Or.inl rfl
+    · rename_i T hT
+      split
+      · exact Or.inl rfl
+      · rename_i hb
+        exact Or.inr ⟨T, hT, by simpa using hb, rfl⟩
+
 /-! ## `Gone`: a transaction that left the manager never comes back -/
 
 /-- the transaction id has been handed out and is no longer in the manager's map -/
@@ -353,6 +370,10 @@ theorem gone_step {s : State} {tx : Nat} (h : Gone s tx) (op : Op) : Gone (step 
   | insert t v => exact gone_insert h t v
   | update t c u => exact gone_update h t c u
   | delete t c => exact gone_delete h t c
+  | batchInsert t rows =>
+    rcases batchInsert_form s t rows with hf | ⟨T, _, _, hf⟩
+    · show Gone (batchInsert s t rows).1 tx; rw [hf]; exact h
+    · show Gone (batchInsert s t rows).1 tx; rw [hf]; exact h
   | createTable n nl => exact h
   | createIndex t c =>
     simp only [step]; unfold createIndex
@@ -538,6 +559,10 @@ theorem lockIdx_step {s : State} (h : LockIdx s) (op : Op) : LockIdx (step s op)
     all_goals first
       | exact h
       | exact lockIdx_finishAuto (lockIdx_txDelete (lockIdx_begin h) _ _ _) _
+  | batchInsert t rows =>
+    rcases batchInsert_form s t rows with hf | ⟨T, _, _, hf⟩
+    · show LockIdx (batchInsert s t rows).1; rw [hf]; exact h
+    · show LockIdx (batchInsert s t rows).1; rw [hf]; exact lockIdx_congr rfl rfl h
   | createTable n nl => exact lockIdx_congr rfl rfl h
   | createIndex t c =>
     simp only [step]; unfold createIndex
